@@ -12,12 +12,16 @@ from vfw.vt.world import Tok, CUR, mark
 
 
 class VLock:
-    def __init__(self, world, reentrant=False):
-        self.w = world
+    def __init__(self, world=None, reentrant=False):
+        self._w = world
         self.re = reentrant
         self.owner = None
         self.n = 0
         self.waited = 0   # virtual time spent inside timed acquires (for the C12 timing clause)
+
+    @property
+    def w(self):
+        return self._w if self._w is not None else CUR['w']
 
     def _can(self, me):
         return self.owner is None or (self.re and self.owner is me)
@@ -30,6 +34,8 @@ class VLock:
         me = CUR['t']
         if not blocking and timeout != -1:
             raise ValueError("can't specify a timeout for a non-blocking call")
+        if not self._can(me) and CUR['off']:
+            return True     # teardown at quiescence: never wait
         if not self._can(me):
             if not blocking:
                 return False
@@ -50,6 +56,8 @@ class VLock:
         return True
 
     def release(self):
+        if CUR['off']:
+            return
         if self.owner is None:
             raise RuntimeError('release unlocked lock')
         if self.re and self.owner is not CUR['t']:
